@@ -41,6 +41,43 @@ fn scenario(name: &str, n: usize) -> serde_json::Value {
                 }
             }
         },
+        "connect_long" => {
+            // names that do not fit sun_path (108 bytes): the call fails one way or another and leaves nothing behind
+            for i in 0..n {
+                for len in [107usize, 108, 109, 150, 300] {
+                    let mut name = format!("/nonexistent/ipc-channel-verif-{}-", i);
+                    while name.len() < len {
+                        name.push('x');
+                    }
+                    if IpcSender::<u32>::connect(name).is_ok() {
+                        notes.push("connect to a missing over-long name succeeded".into());
+                    }
+                }
+            }
+        },
+        "server_noshow" => {
+            // the only client connects and leaves without sending: accept fails, nothing stays behind
+            for _ in 0..n {
+                let (server, name) = IpcOneShotServer::<u32>::new().unwrap();
+                let tx = IpcSender::<u32>::connect(name).unwrap();
+                drop(tx);
+                if server.accept().is_ok() {
+                    notes.push("accept succeeded although nothing was sent".into());
+                }
+            }
+        },
+        "server_bad_first" => {
+            // the first message is not a value of the server's type: accept fails, nothing stays behind
+            for i in 0..n {
+                let (server, name) = IpcOneShotServer::<(String, IpcSender<u32>)>::new().unwrap();
+                let tx = IpcSender::<(u8, Option<IpcSender<u32>>)>::connect(name).unwrap();
+                let (etx, _erx) = ipc::channel::<u32>().unwrap();
+                tx.send((i as u8, Some(etx))).unwrap();
+                if server.accept().is_ok() {
+                    notes.push("accept decoded a message of another type".into());
+                }
+            }
+        },
         "server_unused" => {
             for _ in 0..n {
                 let (server, _name) = IpcOneShotServer::<u32>::new().unwrap();
